@@ -674,21 +674,24 @@ impl Database {
             },
             key => {
                 {
-                    if let Some(value) = self.get_value(key.clone()) {
+                    // Look at the key and change it under the same lock, a snapshot (or another
+                    // client) may change its state in between otherwise
+                    let mut db = self.map.write().unwrap();
+                    if let Some(value) = db.get(&key).cloned() {
                         // If deleted before the key is in disk remove direct from memory
                         if value.state == ValueStatus::New {
-                            let mut db = self.map.write().unwrap();
                             db.remove(&key);
                         } else {
-                            // value.
-                            self.set_value_version(
-                                &key,
-                                &String::from("<Empty>"),
-                                value.version + 1,
-                                ValueStatus::Deleted,
-                                value.value_disk_addr,
-                                value.key_disk_addr,
-                                value.opp_id,
+                            db.insert(
+                                key.clone(),
+                                Value {
+                                    value: String::from("<Empty>"),
+                                    version: value.version + 1,
+                                    state: ValueStatus::Deleted,
+                                    value_disk_addr: value.value_disk_addr,
+                                    key_disk_addr: value.key_disk_addr,
+                                    opp_id: value.opp_id,
+                                },
                             );
                         }
                     }
